@@ -237,6 +237,11 @@ class ANMLGrammar:
         )
         type_decl.set_parse_action(self.types.append)
         identifier_list = identifier - ZeroOrMore(Suppress(TK_COMMA) - identifier)
+        # bounds of the numeric types: signed, a real bound is a decimal or a fraction
+        int_bound = Combine(Optional("-") + Word(nums))
+        real_bound = Combine(
+            Optional("-") + Word(nums) + Optional(one_of([".", "/"]) + Word(nums))
+        )
         primitive_type = (
             keyword(TK_BOOLEAN).set_results_name("name")
             | (
@@ -246,7 +251,7 @@ class ANMLGrammar:
                         (
                             (
                                 Suppress(TK_L_BRACKET)
-                                - integer.set_results_name("left_bound")
+                                - int_bound.set_results_name("left_bound")
                             )
                             | (
                                 Suppress(TK_L_PARENTHESIS)
@@ -257,7 +262,7 @@ class ANMLGrammar:
                         - Suppress(TK_COMMA)
                         - (
                             (
-                                integer.set_results_name("right_bound")
+                                int_bound.set_results_name("right_bound")
                                 - Suppress(TK_R_BRACKET)
                             )
                             | (
@@ -272,11 +277,28 @@ class ANMLGrammar:
                 TK_FLOAT.set_results_name("name")
                 - Optional(
                     Group(
-                        Suppress(TK_L_BRACKET)
-                        - real.set_results_name("left_bound")
+                        (
+                            (
+                                Suppress(TK_L_BRACKET)
+                                - real_bound.set_results_name("left_bound")
+                            )
+                            | (
+                                Suppress(TK_L_PARENTHESIS)
+                                - Suppress("-")
+                                - keyword(TK_INFINITY).set_results_name("left_bound")
+                            )
+                        )
                         - Suppress(TK_COMMA)
-                        - real.set_results_name("right_bound")
-                        - Suppress(TK_R_BRACKET)
+                        - (
+                            (
+                                real_bound.set_results_name("right_bound")
+                                - Suppress(TK_R_BRACKET)
+                            )
+                            | (
+                                keyword(TK_INFINITY).set_results_name("right_bound")
+                                - Suppress(TK_R_PARENTHESIS)
+                            )
+                        )
                     )
                 )
             )
